@@ -28,6 +28,7 @@ type xMsg struct {
 	emptyData                 bool  // HTTP/2: no payload, a lone empty DATA frame ends the stream (HTTP/1: Content-Length: 0)
 	trailers                  [][2]string
 	hasTrailers               bool
+	malformed                 bool // a request MOSN must refuse: nothing to wait for
 }
 
 var xReqNames = []string{"x-trace-id", "accept", "accept", "user-agent", "cookie", "cookie", "x-empty", "authorization", "x-dup", "x-dup", "x-dup",
@@ -206,6 +207,11 @@ func xGenReq(c *hx.Ctx, r *hx.Rng, kind string) *xMsg {
 	}
 	if len(m.body) > 0 && r.Chance(30) {
 		m.fields = append(m.fields, [2]string{"content-length", fmt.Sprint(len(m.body))})
+	}
+	if kind != "x12" && r.Chance(3) { // malformed stream: an upper-case field name on the HTTP/2 wire (RFC 7540 8.1.2) must be refused
+		m.fields = append(m.fields, [2]string{"X-Upper", "v"})
+		m.malformed = true
+		c.Count(kind + ".req.malformed=upper-case-name")
 	}
 	c.Count(kind + ".req.method=" + m.method)
 	c.Count(kind + ".req.body=" + lenBucket(len(m.body)))
@@ -442,20 +448,68 @@ func xOracles(kind string, target string) string {
 
 // --- the three kinds -----------------------------------------------------------------------------------------------------
 
+// xBoundary: the boundary list of the property and the minimised inputs of the defects repaired in this slice, run first in
+// every run of every kind (deterministic; the generated cases follow).
+func xBoundary() [][2]*xMsg {
+	rq := func(method, target string, fields [][2]string, body string, cuts []int, tr [][2]string, hasT bool) *xMsg {
+		m := &xMsg{method: method, target: target, authority: "Example.com:8080", fields: fields, body: []byte(body), cuts: cuts, trailers: tr, hasTrailers: hasT}
+		if body == "" && !hasT {
+			m.endOnHeaders = true
+		}
+		return m
+	}
+	rs := func(status string, fields [][2]string, body string, cuts []int, tr [][2]string, hasT bool, interim ...int) *xMsg {
+		m := &xMsg{status: status, fields: fields, body: []byte(body), cuts: cuts, trailers: tr, hasTrailers: hasT, interim: interim}
+		if body == "" && !hasT {
+			m.endOnHeaders = true
+		}
+		return m
+	}
+	tr := [][2]string{{"x-t1", "v1"}, {"x-t2", "v2"}, {"x-t2", "v3"}}
+	crumbs := [][2]string{{"cookie", "a=1"}, {"x-dup", "one"}, {"cookie", "b=2"}, {"x-dup", "two"}, {"x-empty", ""}, {"te", "trailers"}, {"cookie", "c=3"}}
+	cookies := [][2]string{{"set-cookie", "a=1; Path=/"}, {"x-dup", "one"}, {"set-cookie", "b=2"}, {"x-dup", "two"}, {"set-cookie", "a=3"}, {"vary", "accept"}, {"vary", ""}}
+	emptyPost := rq("POST", "/p", nil, "", nil, nil, false)
+	emptyPost.endOnHeaders, emptyPost.emptyData = false, true
+	emptyResp := rs("200", nil, "", nil, nil, false)
+	emptyResp.endOnHeaders, emptyResp.emptyData = false, true
+	return [][2]*xMsg{
+		{rq("GET", "/a/b?x=1&y=%20", crumbs, "", nil, nil, false), rs("200", cookies, "hello", []int{5}, nil, false)},
+		{rq("POST", "/a%2Fb//c/../d?q", nil, "body", []int{1, 0, 3}, nil, false), rs("201", [][2]string{{"location", "/x"}}, "", nil, nil, false)},
+		{emptyPost, rs("204", [][2]string{{"etag", "\"e\""}}, "", nil, nil, false)},
+		{rq("POST", "/t", [][2]string{{"trailer", "x-t1, x-t2"}}, "body", []int{4}, tr, true), rs("200", [][2]string{{"trailer", "x-t1, x-t2"}}, "resp", []int{4}, tr, true)},
+		{rq("POST", "/t", nil, "body", []int{2, 2}, tr, true), rs("200", nil, "resp", []int{1, 3}, tr, true)},
+		{rq("POST", "/t", nil, "", nil, tr, true), rs("200", nil, "", nil, tr, true)},                       // trailers after an empty body
+		{rq("PUT", "/t", nil, "", nil, nil, true), rs("200", nil, "x", []int{1}, nil, true)},                // an empty trailer block
+		{rq("HEAD", "/h", nil, "", nil, nil, false), rs("200", [][2]string{{"content-length", "1234"}, {"content-type", "x/y"}}, "", nil, nil, false)},
+		{rq("GET", "/n", nil, "", nil, nil, false), rs("304", [][2]string{{"etag", "\"e\""}, {"content-length", "5"}}, "", nil, nil, false)},
+		{rq("GET", "/i", nil, "", nil, nil, false), rs("200", nil, "fin", []int{3}, nil, false, 103)},
+		{rq("GET", "/i", nil, "", nil, nil, false), rs("200", nil, "fin", []int{3}, nil, false, 100, 103)},
+		{rq("GET", "/e?", [][2]string{{"user-agent", "ua/1"}, {"accept", ""}}, "", nil, nil, false), emptyResp},
+		{rq("DELETE", "/big", nil, strings.Repeat("b", 70000), []int{16384, 16385, 37231}, nil, false), rs("200", [][2]string{{"date", "Tue, 15 Nov 1994 08:12:31 GMT"}}, strings.Repeat("r", 65536), []int{65535, 1}, nil, false)},
+	}
+}
+
 func runX(c *hx.Ctx, kind string, quick, thorough int) {
 	s := xSetup(kind)
 	r := c.Rng.Fork()
 	n := c.N(quick, thorough)
-	for i := 0; i < n; i++ {
-		req := xGenReq(c, r, kind)
-		resp := xGenResp(c, r, kind, req.method)
+	bnd := xBoundary()
+	for i := -len(bnd); i < n; i++ {
+		var req, resp *xMsg
+		if i < 0 {
+			req, resp = bnd[i+len(bnd)][0], bnd[i+len(bnd)][1]
+			c.Count(kind + ".boundary-list")
+		} else {
+			req = xGenReq(c, r, kind)
+			resp = xGenResp(c, r, kind, req.method)
+		}
 		xreq, xresp := &xReq{}, &xReq{}
 		var sentReq, sentResp string
 		if s.down == "Http2" {
 			xreq.h2 = req.toH2(r, true)
 			sentReq = h2SentTok(xreq.h2)
 		} else {
-			cs := r.Chance(35)
+			cs := r.Chance(35) || i < 0
 			if cs {
 				c.Count(kind + ".req.connection-specific")
 			}
@@ -466,7 +520,7 @@ func runX(c *hx.Ctx, kind string, quick, thorough int) {
 			xresp.h2 = resp.toH2(r, false)
 			sentResp = h2SentTok(xresp.h2)
 		} else {
-			cs := r.Chance(35)
+			cs := r.Chance(35) || i < 0
 			if cs {
 				c.Count(kind + ".resp.connection-specific")
 			}
